@@ -40,7 +40,7 @@ impl SwiftField for Field50NoOption {
     where
         Self: Sized,
     {
-        let lines: Vec<String> = input.lines().map(|line| line.to_string()).collect();
+        let lines: Vec<String> = input.split('\n').map(|line| line.to_string()).collect();
 
         if lines.is_empty() {
             return Err(ParseError::InvalidFormat {
@@ -59,9 +59,9 @@ impl SwiftField for Field50NoOption {
 
         // Validate each line
         for (i, line) in lines.iter().enumerate() {
-            if line.len() > 35 {
+            if line.is_empty() || line.len() > 35 {
                 return Err(ParseError::InvalidFormat {
-                    message: format!("Field 50 (No Option) line {} exceeds 35 characters", i + 1),
+                    message: format!("Field 50 (No Option) line {} is empty or exceeds 35 characters", i + 1),
                 });
             }
             parse_swift_chars(line, &format!("Field 50 (No Option) line {}", i + 1))?;
@@ -95,7 +95,7 @@ impl SwiftField for Field50A {
     where
         Self: Sized,
     {
-        let lines: Vec<&str> = input.lines().collect();
+        let lines: Vec<&str> = input.split('\n').collect();
 
         if lines.is_empty() {
             return Err(ParseError::InvalidFormat {
@@ -110,7 +110,7 @@ impl SwiftField for Field50A {
         // Check if first line is party identifier
         if lines[0].starts_with('/') {
             let identifier = &lines[0][1..];
-            if identifier.len() > 34 {
+            if identifier.is_empty() || identifier.len() > 34 {
                 return Err(ParseError::InvalidFormat {
                     message: "Field 50A party identifier exceeds 34 characters".to_string(),
                 });
@@ -142,7 +142,7 @@ impl SwiftField for Field50A {
             }
 
             let text = &line[2..];
-            if text.len() > 33 {
+            if text.is_empty() || text.len() > 33 {
                 return Err(ParseError::InvalidFormat {
                     message: format!(
                         "Field 50A line {} text exceeds 33 characters",
@@ -215,7 +215,7 @@ impl SwiftField for Field50F {
     where
         Self: Sized,
     {
-        let lines: Vec<&str> = input.lines().collect();
+        let lines: Vec<&str> = input.split('\n').collect();
 
         if lines.len() < 2 {
             return Err(ParseError::InvalidFormat {
@@ -244,7 +244,7 @@ impl SwiftField for Field50F {
 
         if lines.len() > 2 && lines[1].starts_with('/') {
             let party_id = &lines[1][1..]; // Remove leading slash
-            if party_id.len() > 34 {
+            if party_id.is_empty() || party_id.len() > 34 {
                 return Err(ParseError::InvalidFormat {
                     message: "Field 50F party identifier exceeds 34 characters".to_string(),
                 });
@@ -257,13 +257,22 @@ impl SwiftField for Field50F {
         // Parse name and address lines (between party_id/account and BIC)
         let mut name_and_address = Vec::new();
         for line in &lines[name_start..lines.len() - 1] {
-            if line.len() > 35 {
+            if line.is_empty() || line.len() > 35 {
                 return Err(ParseError::InvalidFormat {
-                    message: "Field 50F name/address line exceeds 35 characters".to_string(),
+                    message: "Field 50F name/address line is empty or exceeds 35 characters".to_string(),
                 });
             }
             parse_swift_chars(line, "Field 50F name/address")?;
             name_and_address.push(line.to_string());
+        }
+
+        if name_and_address.len() > 4 {
+            return Err(ParseError::InvalidFormat {
+                message: format!(
+                    "Field 50F cannot have more than 4 name/address lines, found {}",
+                    name_and_address.len()
+                ),
+            });
         }
 
         Ok(Field50F {
@@ -313,7 +322,7 @@ impl SwiftField for Field50K {
     where
         Self: Sized,
     {
-        let lines: Vec<&str> = input.lines().collect();
+        let lines: Vec<&str> = input.split('\n').collect();
 
         if lines.is_empty() {
             return Err(ParseError::InvalidFormat {
@@ -328,7 +337,7 @@ impl SwiftField for Field50K {
         // Check if first line is account (with leading slash in MT format)
         if lines[0].starts_with('/') {
             let acc = &lines[0][1..];
-            if acc.len() > 34 {
+            if acc.is_empty() || acc.len() > 34 {
                 return Err(ParseError::InvalidFormat {
                     message: "Field 50K account exceeds 34 characters".to_string(),
                 });
@@ -341,7 +350,7 @@ impl SwiftField for Field50K {
 
         // Parse name/address lines
         for (i, line) in lines.iter().enumerate().skip(start_index) {
-            if line.len() > 35 {
+            if line.is_empty() || line.len() > 35 {
                 return Err(ParseError::InvalidFormat {
                     message: format!(
                         "Field 50K line {} exceeds 35 characters",
@@ -472,7 +481,7 @@ impl SwiftField for Field50G {
     where
         Self: Sized,
     {
-        let lines: Vec<&str> = input.lines().collect();
+        let lines: Vec<&str> = input.split('\n').collect();
 
         if lines.len() != 2 {
             return Err(ParseError::InvalidFormat {
@@ -526,7 +535,7 @@ impl SwiftField for Field50H {
     where
         Self: Sized,
     {
-        let lines: Vec<&str> = input.lines().collect();
+        let lines: Vec<&str> = input.split('\n').collect();
 
         if lines.len() < 2 {
             return Err(ParseError::InvalidFormat {
@@ -552,7 +561,7 @@ impl SwiftField for Field50H {
         // Parse name/address lines
         let mut name_and_address = Vec::new();
         for (i, line) in lines.iter().enumerate().skip(1) {
-            if line.len() > 35 {
+            if line.is_empty() || line.len() > 35 {
                 return Err(ParseError::InvalidFormat {
                     message: format!("Field 50H line {} exceeds 35 characters", i),
                 });
@@ -671,7 +680,7 @@ impl SwiftField for Field50OrderingCustomerFGH {
     where
         Self: Sized,
     {
-        let lines: Vec<&str> = input.lines().collect();
+        let lines: Vec<&str> = input.split('\n').collect();
 
         if lines.len() >= 2 {
             // Check if second line is a BIC
@@ -762,7 +771,7 @@ impl SwiftField for Field50OrderingCustomerAFK {
         Self: Sized,
     {
         // Try Option A first (numbered lines)
-        let lines: Vec<&str> = input.lines().collect();
+        let lines: Vec<&str> = input.split('\n').collect();
 
         // Check for numbered lines (characteristic of Option A)
         let mut has_numbered_lines = false;
@@ -865,7 +874,7 @@ impl SwiftField for Field50OrderingCustomerNCF {
     where
         Self: Sized,
     {
-        let lines: Vec<&str> = input.lines().collect();
+        let lines: Vec<&str> = input.split('\n').collect();
 
         // Try Option C (single line BIC)
         if lines.len() == 1
@@ -946,7 +955,7 @@ impl SwiftField for Field50Creditor {
         Self: Sized,
     {
         // Check for numbered lines (characteristic of Option A)
-        let lines: Vec<&str> = input.lines().collect();
+        let lines: Vec<&str> = input.split('\n').collect();
 
         for line in &lines {
             let mut chars = line.chars();
